@@ -307,10 +307,12 @@ void XMLWriter::labels(int x, int y, const edge_t& edge)
 {
     string str;
     if (edge.select.get_size() > 0) {
-        str = edge.select[0].get_name() + " : ";
-        if (edge.select[0].get_type().size() > 0 && edge.select[0].get_type()[0].size() > 0) {
-            str += edge.select[0].get_type()[0].get_label(0);
-        }  // else ? should not happen
+        for (uint32_t i = 0; i < edge.select.get_size(); ++i) {
+            const auto type = edge.select[i].get_type();  // a constant of the declared type
+            str += (i > 0 ? ", " : "") + edge.select[i].get_name() + " : ";
+            if (type.size() > 0)
+                str += type[0].declaration();
+        }
         label("select", str, x, y - 32);
     }
     if (!edge.guard.empty()) {
